@@ -11,6 +11,11 @@ Record case := {
   c_db : db;
   c_others : list db;
   c_now : Z;                                   (* harness clock just before Check was called *)
+  c_after : Z;                                 (* harness clock just after Check returned (same minute as c_now) *)
+  c_instant : list (option Z * Z);             (* every /api/v1/query request the main server got: its [time] parameter and
+                                                  the server's clock when it arrived *)
+  c_range : list (string * list (Z * Z * Z));  (* per query text: (start, end, step) of the /api/v1/query_range requests,
+                                                  as the server parsed them, ascending, repeated slices once *)
   c_settings : settings;
   c_rules : list rinfo;
   c_sels : list vsel;                          (* getNonFallbackSelectors(expr), in order *)
@@ -40,14 +45,18 @@ Definition table_complete (c : case) : bool :=
   let vals := List.app (db_values (c_db c)) (flat_map db_values (c_others c)) in
   forallb (fun p => forallb (fun v => match re_lookup (c_re c) p v with Some _ => true | None => false end) vals) pats.
 
-Definition prob_eqb (a b : string * sev) : bool := String.eqb (fst a) (fst b) && sev_eqb (snd a) (snd b).
+(** the harness lists a selector's problems sorted by (summary, severity name); all problems of one selector share
+    the summary, so the model's emission order is sorted by the severity's name: Bug < Fatal < Information < Warning *)
+Definition sev_rank (x : sev) : nat :=
+  match x with Bug => 0 | Fatal => 1 | Information => 2 | Warning => 3 end.
 
-Fixpoint probs_eqb (a b : list (string * sev)) : bool :=
-  match a, b with
-  | [], [] => true
-  | x :: r, y :: s => prob_eqb x y && probs_eqb r s
-  | _, _ => false
+Fixpoint insert_prob (x : string * sev) (l : list (string * sev)) : list (string * sev) :=
+  match l with
+  | [] => [x]
+  | y :: r => if Nat.ltb (sev_rank (snd y)) (sev_rank (snd x)) then y :: insert_prob x r else x :: y :: r
   end.
+
+Definition sort_probs (l : list (string * sev)) : list (string * sev) := fold_right insert_prob [] l.
 
 Fixpoint observed_for (o : list (string * list (string * sev))) (k : string) : list (string * sev) :=
   match o with
@@ -58,8 +67,8 @@ Fixpoint observed_for (o : list (string * list (string * sev))) (k : string) : l
 Fixpoint compare (m : list (string * outcome)) (o : list (string * list (string * sev))) : option string :=
   match m with
   | [] => None
-  | (k, Decided ps) :: r => if probs_eqb ps (observed_for o k) then compare r o else Some ("problems-of-selector " ++ k)
-  | (k, Steps3to8) :: r => compare r o
+  | (k, Decided ps) :: r => if probs_eqb (sort_probs ps) (observed_for o k) then compare r o else Some ("problems-of-selector " ++ k)
+  | (k, Undetermined) :: r => compare r o
   | (k, OutOfFuel) :: r => Some "model-out-of-fuel"
   end.
 
@@ -72,9 +81,55 @@ Definition bare_ok (s : vsel) : bool :=
   let n := metric_name s in
   if String.eqb n "" then true else String.eqb (vs_bare_str s) n.
 
+(** --- request parameters: what pint asked for versus [instant_request] / [range_requests_for] ------------- *)
+
+Definition opt_z_eqb (a b : option Z) : bool :=
+  match a, b with
+  | None, None => true
+  | Some x, Some y => x =? y
+  | _, _ => false
+  end.
+
+(** Projected observable: the instant at which the server evaluates the probe.  The model ([instant_request]: no
+    [time] parameter) puts it at the server's clock on arrival, i.e. inside the case; a request that pins another
+    evaluation instant disagrees with the model.  (A refactoring that sends [time] = pint's own current clock
+    evaluates at the same instant up to scheduling delay and is accepted.) *)
+Definition instant_ok (c : case) : bool :=
+  forallb (fun r => let t := eval_time (snd r) (mkIReq (fst r)) in
+                    let m := eval_time (snd r) instant_request in
+                    (c_now c <=? m) && (m <=? c_after c + 1000000) &&
+                    (c_now c <=? t) && (t <=? c_after c + 1000000)) (c_instant c).
+
+Fixpoint last_end (l : list (Z * Z * Z)) (d : Z) : Z :=
+  match l with
+  | [] => d
+  | [(_, e, _)] => e
+  | _ :: r => last_end r d
+  end.
+
+(** all slices as the model computes them for the window that ends at the observed end of the last slice; the end of
+    the last slice itself is pint's clock reading and must lie within the case *)
+Fixpoint reqs_eqb (m : list rreq) (o : list (Z * Z * Z)) : bool :=
+  match m, o with
+  | [], [] => true
+  | x :: r, (s, e, st) :: r' => (rq_start x =? s) && (rq_end x =? e) && (rq_step x =? st) && reqs_eqb r r'
+  | _, _ => false
+  end.
+
+Definition range_ok (c : case) (qr : string * list (Z * Z * Z)) : bool :=
+  let e := last_end (snd qr) 0 in
+  let st := c_settings c in
+  (c_now c <=? e) && (e <=? c_after c + 1000000) &&
+  match range_requests_for (e - set_lookback st) e (set_lookback st) (set_step st) with
+  | None => false
+  | Some m => reqs_eqb m (snd qr)
+  end.
+
 Definition check_case (c : case) : option string :=
   if negb (table_complete c) then Some "regexp-table-incomplete"
   else if negb (forallb bare_ok (c_sels c)) then Some "stripLabels"
+  else if negb (instant_ok c) then Some "instant-request-time-parameter"
+  else if negb (forallb (range_ok c) (c_range c)) then Some "range-request-parameters"
   else
     let m := check (re_of (c_re c)) (c_db c) (c_others c) (c_now c) (c_settings c) (c_rules c) (c_sels c) in
     match compare m (c_observed c) with
